@@ -134,6 +134,9 @@ type Op struct {
 	// range: mutations performed when a given key is visited (first visit only), and an optional early break
 	On    map[int][]Op `json:"on,omitempty"`
 	Break int          `json:"break,omitempty"` // stop after this many visits (0 = run to the end)
+	Key2  int          `json:"key2,omitempty"`  // clone: the key inserted into the clone (Key/Val go into the original)
+	Val2  int32        `json:"val2,omitempty"`
+	Same  bool         `json:"same,omitempty"`  // range (script form, no mutations): the value variable is called m, like the map it ranges over
 	Nest  []int        `json:"nest,omitempty"`  // range: at the first visit of these keys a second, complete range over the same map runs inside the loop
 }
 
@@ -172,6 +175,9 @@ func genOp(n int, nilMap bool) *rapid.Generator[Op] {
 			return Op{Op: "getok", Key: rx.Uniform(rt, n, "key"), Neg: rapid.Bool().Draw(rt, "negzero")}
 		case c < 76:
 			return Op{Op: "len"}
+		case c < 80:
+			// a copy of the map is taken; then the original and the copy each get a key: they are independent
+			return Op{Op: "clone", Key: rx.Uniform(rt, n, "key"), Key2: rx.Uniform(rt, n, "key2"), Neg: rapid.Bool().Draw(rt, "negzero")}
 		}
 		op := Op{Op: "range"}
 		if rapid.IntRange(0, 2).Draw(rt, "mutating") > 0 {
@@ -182,6 +188,10 @@ func genOp(n int, nilMap bool) *rapid.Generator[Op] {
 		}
 		if rapid.IntRange(0, 5).Draw(rt, "break") == 0 {
 			op.Break = rapid.IntRange(1, 3).Draw(rt, "breakAfter")
+		}
+		if len(op.On) == 0 && rapid.IntRange(0, 3).Draw(rt, "samename") == 0 {
+			op.Same = true
+			return op
 		}
 		if rapid.IntRange(0, 3).Draw(rt, "nested") == 0 {
 			op.Nest = rapid.SliceOfNDistinct(rapid.IntRange(0, n-1), 1, 3, rapid.ID[int]).Draw(rt, "nestkeys")
@@ -208,6 +218,10 @@ func genHistory(rt *rapid.T) *History {
 		if h.Ops[i].Op == "set" {
 			next++
 			h.Ops[i].Val = next
+		}
+		if h.Ops[i].Op == "clone" {
+			next += 2
+			h.Ops[i].Val, h.Ops[i].Val2 = next-1, next
 		}
 		keys := make([]int, 0, len(h.Ops[i].On))
 		for key := range h.Ops[i].On {
@@ -304,7 +318,7 @@ func (rs *rangeState) atEnd(complete bool) string {
 
 func (m *model) apply(op Op, rs *rangeState) {
 	switch op.Op {
-	case "set":
+	case "set", "clone": // for the original map a clone step is the insertion of Key
 		m.data[op.Key] = op.Val
 	case "delete":
 		delete(m.data, op.Key)
@@ -405,7 +419,7 @@ func runHost(h *History) (f *ev.Failure) {
 	m := newModel(h)
 	for i, op := range h.Ops {
 		switch op.Op {
-		case "set":
+		case "set", "clone": // the host form has no Clone: the step is the insertion into the original
 			gm.Set(k.val(op), goatlang.Int32(op.Val))
 			m.apply(op, nil)
 		case "delete":
@@ -508,7 +522,7 @@ func script(h *History) string {
 	k := kindByName(h.Kind)
 	var sb strings.Builder
 	ind := ""
-	sb.WriteString("import \"fmt\"\n")
+	sb.WriteString("import \"fmt\"\nimport \"golang.org/x/exp/maps\"\n")
 	if h.InFunc {
 		sb.WriteString("func run() {\n")
 		ind = "\t"
@@ -536,6 +550,13 @@ func script(h *History) string {
 		switch op.Op {
 		case "set", "delete":
 			writeMut(ind, op)
+		case "clone":
+			fmt.Fprintf(&sb, "%sc%d := maps.Clone(m)\n", ind, i)
+			fmt.Fprintf(&sb, "%sm[%s] = %d\n", ind, k.lit(op), op.Val)
+			fmt.Fprintf(&sb, "%sc%d[%s] = %d\n", ind, i, k.Keys[op.Key2], op.Val2)
+			fmt.Fprintf(&sb, "%sfmt.Println(\"CL\", %d, len(c%d))\n", ind, i, i)
+			fmt.Fprintf(&sb, "%sfor k, v := range c%d {\n%s\tfmt.Println(\"CV\", %d, k, v)\n%s}\n", ind, i, ind, i, ind)
+			fmt.Fprintf(&sb, "%sfmt.Println(\"CE\", %d)\n", ind, i)
 		case "get":
 			fmt.Fprintf(&sb, "%sfmt.Println(\"G\", %d, m[%s])\n", ind, i, k.lit(op))
 		case "getok":
@@ -556,8 +577,14 @@ func script(h *History) string {
 			for _, key := range op.Nest {
 				fmt.Fprintf(&sb, "%sw%d_%d := false\n", ind, i, key)
 			}
-			fmt.Fprintf(&sb, "%sfor k, v := range m {\n", ind)
-			fmt.Fprintf(&sb, "%s\tfmt.Println(\"V\", %d, k, v)\n", ind, i)
+			if op.Same {
+				// the range expression is evaluated before the loop variables exist: m on the right is still the map
+				fmt.Fprintf(&sb, "%sfor k, m := range m {\n", ind)
+				fmt.Fprintf(&sb, "%s\tfmt.Println(\"V\", %d, k, m)\n", ind, i)
+			} else {
+				fmt.Fprintf(&sb, "%sfor k, v := range m {\n", ind)
+				fmt.Fprintf(&sb, "%s\tfmt.Println(\"V\", %d, k, v)\n", ind, i)
+			}
 			for _, key := range op.Nest {
 				fmt.Fprintf(&sb, "%s\tif k == %s && !w%d_%d {\n%s\t\tw%d_%d = true\n%s\t\tfor k2, v2 := range m {\n%s\t\t\tfmt.Println(\"W\", %d, k2, v2)\n%s\t\t}\n%s\t\tfmt.Println(\"X\", %d)\n%s\t}\n", ind, k.Keys[key], i, key, ind, i, key, ind, ind, i, ind, ind, i, ind)
 			}
@@ -623,6 +650,49 @@ func runScript(h *History) *ev.Failure {
 	}
 	for i, op := range h.Ops {
 		switch op.Op {
+		case "clone":
+			cm := &model{data: map[int]int32{}}
+			for kk, vv := range m.data {
+				cm.data[kk] = vv
+			}
+			cm.data[op.Key2] = op.Val2
+			m.apply(op, nil)
+			if f := expect(i, fmt.Sprintf("CL %d %d", i, len(cm.data))); f != nil {
+				return f
+			}
+			crs := newRangeState(cm)
+			cprefix := fmt.Sprintf("CV %d ", i)
+			for strings.HasPrefix(peek(), cprefix) {
+				cl, _ := nextLine()
+				crest := cl[len(cprefix):]
+				csp := strings.LastIndex(crest, " ")
+				if csp < 0 {
+					return failS(i, fmt.Sprintf("malformed clone visit line %q", cl))
+				}
+				ck := -1
+				for j, p := range k.Prints {
+					if p == crest[:csp] {
+						ck = j
+					}
+				}
+				if ck < 0 && k.Name == "float64" && crest[:csp] == "-0" {
+					ck = 0
+				}
+				if ck < 0 {
+					return failS(i, fmt.Sprintf("range over the clone yielded key %q, which was never inserted", crest[:csp]))
+				}
+				var cv int32
+				fmt.Sscan(crest[csp+1:], &cv)
+				if msg := crs.onVisit(visit{ck, cv}); msg != "" {
+					return failS(i, "clone: "+msg)
+				}
+			}
+			if f := expect(i, fmt.Sprintf("CE %d", i)); f != nil {
+				return f
+			}
+			if msg := crs.atEnd(true); msg != "" {
+				return failS(i, "clone: "+msg)
+			}
 		case "set", "delete":
 			m.apply(op, nil)
 		case "get":
